@@ -263,11 +263,17 @@ def main(argv):
         obligations = len(wanted) + (0 if gen_ok else len(gen_targets)) + len(src_wanted)
         discharged = len([t for t in wanted if t in thms])
         if tier == "thorough" and getattr(mod, "LEANCHECKER", True):
-            r = cm._run(["lake", "env", "leanchecker", *targets], cm.LEAN_DIR, 3000)
+            chk = list(targets)
+            if src_info and src_state == "holds":
+                # the obligations about the translated source (and the alignment) are re-checked too
+                chk += [src_info["lean_target"]] + list(src_info.get("extra_targets", []))
+                if src_info.get("alignment") == "holds" and src_info.get("align_target"):
+                    chk.append(src_info["align_target"])
+            r = cm._run(["lake", "env", "leanchecker", *chk], cm.LEAN_DIR, 3000)
             if r.returncode != 0:
                 print(r.stdout[-3000:])
                 raise Infra("leanchecker rejected the compiled proofs")
-            ctx.notes.append("leanchecker re-checked: " + " ".join(targets))
+            ctx.notes.append("leanchecker re-checked: " + " ".join(chk))
 
         # ---- 3. corpus, then generated inputs ----------------------------------------------------------------------
         if replay:
